@@ -3,6 +3,7 @@
 import json
 ids=[json.loads(l)['id'] for l in open('/verif/properties.jsonl')]
 claimed = {
+ "C01": ("end-to-end: real exporter -> simulated network (segmentation, delay; loss/dup/reorder in a lossy-udp member) -> real collector over tcp, udp, tls (real crypto/tls) and dtls (real pion/dtls), IPv4 and IPv6; consumer output compared field by field with what the application handed", "6 C01"),
  "C03": ("collector decode under transport corruption: grammar-generated and mutated messages against the real decoder (hook path) and the real UDP server path; independent reference parser + template-table model; step-budget watchdog for non-termination", "6 C03"),
  "C04": ("histories of template / replacing / bad-template / data messages from several clients over the decode hook and over real TCP connections; template-table model stepped in the same order, table compared after every message", "6 C04"),
  "C11": ("raw client over a simulated TCP stream with seeded segmentation, delays and short reads against the real accept/reader goroutines; message-sequence prefix model", "6 C11"),
